@@ -9,7 +9,7 @@
    lo <= hi, at least one grid point, strictly increasing, all inside [lo, hi].
    [nthR i l] is [nth i l 0]. *)
 From Coq Require Import ZArith Reals List Bool.
-From Verif Require Import Base.Num Base.Vec C14.Model C14.Proofs C14.ProofsIndex C14.ProofsUniform C14.ProofsSlice C14.ProofsNd C14.ProofsAxes C14.ProofsFactories C14.ProofsByaxis.
+From Verif Require Import Base.Num Base.Vec C14.Model C14.Proofs C14.ProofsIndex C14.ProofsUniform C14.ProofsSlice C14.ProofsNd C14.ProofsAxes C14.ProofsFactories C14.ProofsByaxis C14.ProofsList.
 Import ListNotations.
 Local Open Scope R_scope.
 
@@ -422,3 +422,62 @@ Theorem boundary_cell_fractions_are_the_contained_fractions : forall ax : axis R
   (l = 1 / 2 <-> nthR 0 (a_cs ax) = a_lo ax) /\ (r = 1 / 2 <-> nthR (n - 1) (a_cs ax) = a_hi ax).
 Proof. exact bdry_fracs_spec. Qed.
 Print Assumptions boundary_cell_fractions_are_the_contained_fractions.
+
+(* ------------------------------------------------------------------ *)
+(* T2. Index lists p[[i1..ik]] (first axis), any strictly increasing list of in-range
+   indices, gaps allowed: the result has exactly the selected grid points, its limits are the
+   left edge of the first and the right edge of the last selected cell, it is a valid
+   partition, and the other axes are untouched.  (For a list without gaps this is the slice
+   i1:ik+1; with gaps the cells are not the selected cells, see the _refuted theorem above.) *)
+Theorem getitem_index_list_partial : forall (ax : axis R) (p' : list (axis R)) (l : list Z),
+  valid ax -> Forall valid p' -> (1 <= length l)%nat -> zincr l ->
+  (forall i, In i l -> (0 <= i < zlen (a_cs ax))%Z) ->
+  getitem_list (ax :: p') l = Ok (list_ax ax l :: p') /\ valid (list_ax ax l) /\
+  length (a_cs (list_ax ax l)) = length l /\
+  forall j, (j < length l)%nat -> nthR j (a_cs (list_ax ax l)) = nthR (Z.to_nat (nth j l 0%Z)) (a_cs ax).
+Proof. exact getitem_list_spec. Qed.
+Print Assumptions getitem_index_list_partial.
+
+(* T2. Negative steps: whenever a slice a:b:k with k < 0 selects two or more grid points the
+   selected vector is decreasing, so no limits make it an acceptable axis (RectGrid raises
+   ValueError "not sorted") and the whole partition is rejected. *)
+Theorem negative_step_with_two_points_is_rejected :
+  forall (ax : axis R) (a b : option Z) (k s e k' : Z) (lo hi : R),
+  valid ax -> (k < 0)%Z -> slice_adjust (zlen (a_cs ax)) (a, b, Some k) = Some (s, e, k') ->
+  (2 <= range_len s e k')%Z ->
+  axis_ok (mkAxis lo hi (take_idx (a_cs ax) (zrange s e k'))) = false.
+Proof. exact neg_step_unsorted. Qed.
+Print Assumptions negative_step_with_two_points_is_rejected.
+Theorem one_bad_axis_rejects_the_partition : forall (p q : list (axis R)) (ax : axis R),
+  axis_ok ax = false -> mk_part (p ++ ax :: q) = ValueErr.
+Proof. exact mk_part_rejects. Qed.
+
+(* T2. squeeze(axis=i): axis i (negative i from the end) is dropped iff it has one grid point;
+   outside [-ndim, ndim) IndexError.  (Any carrier.) *)
+Theorem squeeze_one_axis : forall (T : Type) (p : list (axis T)) (i : Z) (d : axis T),
+  (- zlen p <= i < zlen p)%Z ->
+  let k := Z.to_nat (norm_pos (zlen p) i) in
+  squeeze p (AxInt i) = Ok (if nondegen (nth k p d) then p else firstn k p ++ skipn (S k) p).
+Proof. exact (@squeeze_int). Qed.
+Print Assumptions squeeze_one_axis.
+Theorem squeeze_axis_out_of_range : forall (T : Type) (p : list (axis T)) (i : Z),
+  (i < - zlen p \/ zlen p <= i)%Z -> squeeze p (AxInt i) = IndexErr.
+Proof. exact (@squeeze_int_out_of_range). Qed.
+
+(* T2. uniform_partition_fromgrid with explicit limits in some axes (dict arguments): given
+   limits are used as they are, missing ones are half a gap outside the outermost node; the
+   result is accepted iff the given limits enclose the grid; with one grid point a missing
+   limit is a ValueError. *)
+Theorem fromgrid_explicit_limits : forall (cs : list R) (omin omax : option R), (2 <= length cs)%nat ->
+  fromgrid_axis cs omin omax = Ok (mkAxis (fromgrid_lo cs omin) (fromgrid_hi cs omax) cs).
+Proof. exact fromgrid_axis_spec. Qed.
+Theorem fromgrid_explicit_limits_valid : forall (cs : list R) (omin omax : option R),
+  sincr cs -> (2 <= length cs)%nat ->
+  (forall v, omin = Some v -> v <= nthR 0 cs) ->
+  (forall v, omax = Some v -> nthR (length cs - 1) cs <= v) ->
+  valid (mkAxis (fromgrid_lo cs omin) (fromgrid_hi cs omax) cs).
+Proof. exact fromgrid_axis_valid. Qed.
+Print Assumptions fromgrid_explicit_limits_valid.
+Theorem fromgrid_single_point_needs_limits : forall (c : R) (omax : option R),
+  fromgrid_axis [c] None omax = ValueErr.
+Proof. exact fromgrid_axis_single. Qed.
